@@ -1678,6 +1678,8 @@ class C03(Prop):
         "connection loss and the content of replies are not part of this model (C01/C02/C06); a lock request is one more request "
         "(its effect: C04); context stop is exercised only as the final clean-up of each scenario",
         "threading.Lock/Condition as specified (cooperative versions of harness/detsched.py)",
+        "a request the OS refuses to send (send-fault family) has no action in the model: those scenarios are judged by the "
+        "order / single-worker oracle only, not trace-refined",
     ]
 
     # -- translator: shape of the worker code (Gen/RpcShape.lean) ---------------------------------
